@@ -1,4 +1,5 @@
 #!/bin/bash
+export VERIF_EVIDENCE_DIR=/tmp/verif-scratch-evidence  # keep /verif/evidence for runs against the unchanged /repo
 # usage: benignrun.sh <ID> <check>... : applies each /tmp/benign_<ID>/OUT/change<k>.diff to a scratch worktree and runs the
 # quick checks; a behaviour-preserving change must leave every check at exit 0
 id=$1; shift
